@@ -2,6 +2,7 @@ package chk
 
 import (
 	"fmt"
+	"os"
 
 	"golang.org/x/tools/go/ssa"
 )
@@ -25,9 +26,49 @@ func Dump(p *Prog, what string) {
 				fmt.Printf("    %-6s %-45s at %s in %s via %s val=%v\n", ef.Root, ef.Loc, p.Pos(ef.Pos), ef.Fn, ef.Via, ef.Val.sorted())
 			}
 		}
+	case "scope":
+		for _, f := range c08Scope(p, &Ledger{keyCount: map[string]int{}, residue: map[string]string{}, known: map[string]string{}}, "x", "quick") {
+			fmt.Println(FnName(f))
+		}
 	case "ext":
 		dumpExtCalls(p)
 	default:
+		if len(what) > 7 && what[:7] == "bounds:" {
+			DumpBounds(p, what[7:])
+			return
+		}
 		fmt.Println("unknown dump", what)
+	}
+}
+
+// DumpBounds prints every bounds site of one function with its verdict (debugging aid).
+func DumpBounds(p *Prog, name string) {
+	a := NewNilAnalysis(p)
+	fn := p.Fn(name)
+	if fn == nil {
+		fmt.Println("no such function")
+		return
+	}
+	for _, s := range boundSites(fn) {
+		ok, why := a.proveSite(fn, s)
+		fmt.Printf("%s %s %s ok=%v %s\n", p.Pos(s.ins.Pos()), s.kind, siteDesc(s), ok, why)
+		if os.Getenv("DUMPGRAPH") != "" {
+			a.cur, a.curFn = s.ins, fn
+			g := a.newGraph(fn, s.ins)
+			a.containerLen(g, s.x)
+			for _, v := range []ssa.Value{s.idx, s.lo, s.hi} {
+				if v != nil {
+					g.define(v, 0)
+				}
+			}
+			for b, outs := range g.edges {
+				for a2, c := range outs {
+					fmt.Printf("      %s - %s <= %d\n", a2, b, c)
+				}
+			}
+			for k := range a.at[s.ins] {
+				fmt.Println("      fact", k)
+			}
+		}
 	}
 }
